@@ -215,12 +215,13 @@ Decoded decode(const std::string& phrase, unsigned coin, int lang) {
     for (int li = 0; li < (int)langs.size(); ++li) {
         if (lang >= 0 && li != lang) continue;
         unsigned tmp[16]; bool all = true;
-        for (int w = 0; w < 16; ++w) {
+        int w = 0;
+        for (; w < 16; ++w) {
             int m = match_token(langs[li], tok[w]);
             if (m < 0) { all = false; break; }
             tmp[w] = m;
         }
-        if (!all) continue;
+        if (!all) { if (w >= 3) d.partial.push_back(std::vector<unsigned>(tmp, tmp + w)); continue; }
         if (++nfound == 1) { found = li; memcpy(idx, tmp, sizeof idx); }
     }
     if (nfound == 0) { d.status = ST_LANG; return d; }
